@@ -167,7 +167,7 @@ def run(ctx):
     hist_modes = ['Absent', mf_tla('text', 'on', B - 2), mf_tla('text', 'off'), mf_tla('text', 'local'), mf_tla('text', 'ON')]
     hist_clock = [(B + 1, 0), (B + 8, 1), (B + 9, 0), (B + 30, 1)]
     m = mc('MCConsentHist', hist_modes, [[]], [rep([], [], [])], [(B, 1)], hist_clock)
-    hcfg = cfg(W=6, collectors=('c1', 'c2') if th else ('c1',), setmodes=('on', 'off', 'local', 'auto'), setpads=('', 'nl', 'lead', 'trail') if th else ('', 'nl'), setdays=(B - 1, B + 2), xs=(0, 600), rates=(0, 512),
+    hcfg = cfg(W=6, collectors=('c1', 'c2') if th else ('c1',), setmodes=('on', 'off', 'local', 'auto'), setpads=('', 'nl', 'trail') if th else ('', 'nl'), setdays=(B - 1, B + 2), xs=(0, 600), rates=(0, 512),
                maxrun=2, maxset=2, maxedit=1, maxcollect=2 if th else 1, maxadv=3 if th else 2)
     r = ctx.tlc('MCConsentHist', files={'MCConsentHist.tla': m}, cfg_text=hcfg, label='Consent-hist', timeout=3000)
     if not r.ok:
